@@ -171,6 +171,12 @@ class Slice(T):
     def nleaves(self, mod):
         return 2 + SLICE_MAX
 
+    def mk(self, ctx):
+        """a borrowed value for callback arguments: a seed-chosen prefix of a static array"""
+        assert self.kind == "ref" and self.spelling == "std" and self.elem.name in ("u8", "u16", "u32")
+        arr = {"u8": "vs::MULTIBYTE", "u16": "vs::WIDE", "u32": "vs::QUADS"}[self.elem.name]
+        return "{ let k = (vs::seed() & 3) as usize; &%s[..k] }" % arr
+
 
 class Str(T):
     """&str / &DiplomatStr / &DiplomatStr16 / Box<str> .. ; enc in utf8|unval8|utf16"""
@@ -193,6 +199,15 @@ class Str(T):
 
     def elem(self):
         return Prim("u16") if self.enc == "utf16" else Prim("u8")
+
+    def mk(self, ctx):
+        """a borrowed value for callback arguments: a seed-chosen prefix of a static array (a valid prefix for &str)"""
+        assert self.kind == "ref" and self.spelling == "std"
+        if self.enc == "utf16":
+            return "{ let k = (vs::seed() & 3) as usize; &vs::WIDE[..k] }"
+        if self.enc == "unval8":
+            return "{ let k = (vs::seed() & 3) as usize; &vs::MULTIBYTE[..k] }"
+        return "{ let k = vs::seed() & 3; let n: usize = match k { 0 => 0, 1 => 1, 2 => 2, _ => 4 }; core::str::from_utf8_unchecked(&vs::MULTIBYTE[..n]) }"
 
     def log(self, e, l, ctx):
         el = self.elem().rust()
@@ -683,6 +698,13 @@ def m0_callbacks():
     m.add(StructDef("CbSt", [("a", P("u8")), ("b", P("u32")), ("c", P("i16"))]))
     m.method("Cb", "cb_enum", None, [("f", Callback([EnumT("CbEn"), P("u8")], EnumT("CbEn")))], EnumT("CbEn"))
     m.method("Cb", "cb_struct", "ref", [("f", Callback([StructT("CbSt"), EnumT("CbEn")], P("i16")))], P("i16"))
+    # borrowed string / slice arguments handed to the foreign callback; the view in the position where the integer
+    # argument registers run out (data pointer + 4 integers before it on x86-64) is the interesting one
+    m.method("Cb", "cb_str", None, [("f", Callback([P("i32"), Str("utf8")], P("i32")))], P("i32"))
+    m.method("Cb", "cb_str_long", "ref", [("f", Callback([P("i32"), P("i32"), P("i32"), P("i32"), Str("utf8")], P("i32")))], P("i32"))
+    m.method("Cb", "cb_str16", None, [("f", Callback([P("u8"), Str("utf16"), P("u16")], None))], None)
+    m.method("Cb", "cb_bytes", None, [("f", Callback([Str("unval8"), P("u64")], P("u8")))], P("u8"))
+    m.method("Cb", "cb_slice", None, [("f", Callback([Slice(P("u32"), "ref"), P("i8")], P("u32")))], P("u32"))
     m.method("Cb", "new", None, [], OpaqueBox("Cb"))
     return m
 
@@ -702,6 +724,15 @@ def m0_results():
             m.method("Rs", "r_%s_%s" % (on, en), None, [], Res(o, e, "std"))
     for on, o in oks[1:]:
         m.method("Rs", "o_%s" % on, None, [("x", Opt(o, "std"))], Opt(o, "std"))
+    # zero-sized (field-less) structs as payload: like unit, they occupy no payload
+    m.add(StructDef("Zst", []))
+    m.add(StructDef("Zst2", [], out=True))
+    m.method("Rs", "z_unit_zst", None, [], Res(None, StructT("Zst"), "std"))
+    m.method("Rs", "z_zst_unit", None, [("k", P("u8"))], Res(StructT("Zst"), None, "std"))
+    m.method("Rs", "z_zst_zst2", None, [], Res(StructT("Zst"), StructT("Zst2"), "std"))
+    m.method("Rs", "z_opt_zst", None, [], Opt(StructT("Zst"), "std"))
+    m.method("Rs", "z_zst_u8", None, [], Res(StructT("Zst"), P("u8"), "std"))
+    m.method("Rs", "z_i32_zst", None, [], Res(P("i32"), StructT("Zst"), "std"))
     m.method("Rs", "new", None, [], OpaqueBox("Rs"))
     return m
 
